@@ -76,6 +76,66 @@ Proof.
     replace (N.to_nat (i - k)) with (S (N.to_nat (i - (k + 1)))) by lia. exact Hn.
 Qed.
 
+Lemma mem_app : forall x l1 l2, mem x (l1 ++ l2) = mem x l1 || mem x l2.
+Proof. intros. unfold mem. apply existsb_app. Qed.
+
+Lemma alookup_In : forall (V : Type) (k : N) (l : list (N * V)) v, alookup k l = Some v -> In (k, v) l.
+Proof.
+  induction l as [|[k0 v0] l IH]; simpl; intros v H; [discriminate|].
+  destruct (k =? k0) eqn:E; [apply N.eqb_eq in E; inversion H; subst; auto|auto].
+Qed.
+
+Lemma alookup_map_snd : forall (V W : Type) (g : V -> W) (k : N) (l : list (N * V)),
+  alookup k (map (fun hd => (fst hd, g (snd hd))) l) = option_map g (alookup k l).
+Proof.
+  induction l as [|[k0 v0] l IH]; simpl; [reflexivity|]. destruct (k =? k0); [reflexivity|exact IH].
+Qed.
+
+(* putClass over a batch of delivered definitions: an existing entry stays, otherwise the first delivered one *)
+Lemma alookup_add_classes : forall (V : Type) (k : N) (dl cls : list (N * V)),
+  alookup k (add_classes dl cls) = match alookup k cls with Some v => Some v | None => alookup k dl end.
+Proof.
+  unfold add_classes. induction dl as [|[k0 v0] dl IH]; intros cls; simpl.
+  - destruct (alookup k cls); reflexivity.
+  - rewrite IH. destruct (alookup k0 cls) as [v1|] eqn:E0.
+    + destruct (alookup k cls) eqn:Ek; [reflexivity|].
+      destruct (k =? k0) eqn:E; [|reflexivity]. apply N.eqb_eq in E. subst. congruence.
+    + simpl. destruct (k =? k0) eqn:E.
+      * apply N.eqb_eq in E. subst. rewrite E0. reflexivity.
+      * reflexivity.
+Qed.
+
+(* removeDeclaredClasses: the class goes exactly when it is one of the visited hashes and was declared at n *)
+Lemma alookup_undeclare : forall n hs cls k,
+  alookup k (undeclare n hs cls) =
+  match alookup k cls with
+  | Some (a, df) => if mem k hs && (a =? n) then None else Some (a, df)
+  | None => None
+  end.
+Proof.
+  unfold undeclare. induction hs as [|ch hs IH]; intros cls k; simpl.
+  - destruct (alookup k cls) as [[a df]|]; reflexivity.
+  - rewrite IH. unfold mem. simpl. fold (mem k hs).
+    destruct (alookup ch cls) as [[a0 df0]|] eqn:Ec.
+    + destruct (a0 =? n) eqn:En.
+      * rewrite alookup_aremove. destruct (k =? ch) eqn:E.
+        -- apply N.eqb_eq in E. subst k. rewrite Ec, En. simpl. reflexivity.
+        -- simpl. reflexivity.
+      * destruct (k =? ch) eqn:E; simpl; [|reflexivity].
+        apply N.eqb_eq in E. subst k. rewrite Ec, En. rewrite andb_false_r. reflexivity.
+    + destruct (k =? ch) eqn:E; simpl; [|reflexivity].
+      apply N.eqb_eq in E. subst k. rewrite Ec. reflexivity.
+Qed.
+
+Lemma declared_defs_hashes : forall d ch def, alookup ch (declared_defs d) = Some def -> In ch (declared_hashes d).
+Proof.
+  intros d ch def H. apply alookup_In in H. unfold declared_defs in H. unfold declared_hashes.
+  apply in_app_or in H. apply in_or_app. destruct H as [H|H].
+  - left. apply (in_map fst) in H. exact H.
+  - right. apply in_map_iff in H. destruct H as [[k [c v]] [E Hin]]. simpl in E. inversion E; subst.
+    apply (in_map fst) in Hin. exact Hin.
+Qed.
+
 (* ---------- well-formed chains ---------- *)
 Definition tx_loc (c : chain) (h : hash) : option (N * N) :=
   match find_tx c h with Some (b, i, _) => Some (b_number b, i) | None => None end.
@@ -89,7 +149,7 @@ Fixpoint wf (c : chain) : Prop :=
       nodup_hashes (map t_hash (b_txs b)) = true /\
       (forall t, In t (b_txs b) -> find_tx r (t_hash t) = None) /\
       b_state b = apply_diff (head_state r) (b_diff b) /\
-      b_classes b = d_declare (b_diff b) ++ head_classes r /\
+      b_classes b = add_classes (declared_defs (b_diff b) ++ b_extra b) (head_classes r) /\
       wf r
   end.
 
@@ -101,6 +161,36 @@ Proof.
   induction c as [|b r IH]; simpl; intros Hwf x Hin; [contradiction|].
   destruct Hwf as [Hn [_ [_ [_ [_ [_ [_ [_ Hr]]]]]]]].
   destruct Hin as [<-|Hin]; [lia|]. specialize (IH Hr x Hin). lia.
+Qed.
+
+(* the cumulative class map of every block of a well-formed chain, in terms of the lowest delivering block *)
+Lemma class_facts : forall c, wf c ->
+  (forall ch a df, class_decl c ch = Some (a, df) -> a < N.of_nat (length c)) /\
+  (forall ch, alookup ch (head_classes c) = option_map snd (class_decl c ch)) /\
+  (forall b, In b c -> forall ch, alookup ch (b_classes b) = class_visible c ch (b_number b)).
+Proof.
+  induction c as [|x r IH]; intros Hwf.
+  - repeat split; simpl; intros; try discriminate; try reflexivity; contradiction.
+  - pose proof Hwf as Hwf'. destruct Hwf as [Hn [_ [_ [_ [_ [_ [_ [Hcl Hr]]]]]]]].
+    destruct (IH Hr) as [IH1 [IH2 IH3]].
+    assert (B : forall ch a df, class_decl (x :: r) ch = Some (a, df) -> a < N.of_nat (length (x :: r))).
+    { intros ch a df H. simpl in H. destruct (class_decl r ch) as [[a' df']|] eqn:E.
+      - inversion H; subst. specialize (IH1 ch a df E). simpl length. lia.
+      - destruct (alookup ch (delivered x)); simpl in H; [|discriminate]. inversion H; subst. simpl length. lia. }
+    assert (Hd : forall ch, alookup ch (b_classes x) = option_map snd (class_decl (x :: r) ch)).
+    { intros ch. rewrite Hcl, alookup_add_classes, IH2. simpl. fold (delivered x).
+      destruct (class_decl r ch) as [[a df]|]; simpl; [reflexivity|].
+      destruct (alookup ch (delivered x)); reflexivity. }
+    split; [exact B|]. split; [exact Hd|].
+    intros b [<-|Hin] ch.
+    + rewrite Hd. unfold class_visible. destruct (class_decl (x :: r) ch) as [[a df]|] eqn:E; [|reflexivity].
+      specialize (B ch a df E). simpl length in B. simpl.
+      destruct (a <=? b_number x) eqn:El; [reflexivity|]. lia.
+    + rewrite (IH3 b Hin ch). unfold class_visible. simpl.
+      destruct (class_decl r ch) as [[a df]|] eqn:E; [reflexivity|].
+      destruct (alookup ch (delivered x)) as [def|]; simpl; [|reflexivity].
+      pose proof (wf_numbers_lt r Hr b Hin) as Hlt.
+      destruct (b_number x <=? b_number b) eqn:El; [lia|reflexivity].
 Qed.
 
 Lemma block_at_In : forall c n b, block_at c n = Some b -> In b c /\ b_number b = n.
@@ -169,8 +259,9 @@ Qed.
 
 Lemma w_step_wf : forall w o, wf (w_chain w) -> op_ok w o = true -> wf (w_chain (w_step w o)).
 Proof.
-  intros w o Hwf Hok. destruct o as [h txs d| |n]; simpl.
-  - simpl in Hok. apply andb_prop in Hok. destruct Hok as [Hok H4].
+  intros w o Hwf Hok. destruct o as [h hp txs d extra| |n]; simpl.
+  - simpl in Hok. apply andb_prop in Hok. destruct Hok as [Hok H5].
+    apply andb_prop in Hok. destruct Hok as [Hok H4].
     apply andb_prop in Hok. destruct Hok as [Hok H3].
     apply andb_prop in Hok. destruct Hok as [H1 H2].
     repeat split; auto.
@@ -188,13 +279,107 @@ Proof.
   apply IH; [apply w_step_wf; assumption|exact H2].
 Qed.
 
+(* ---------- the storage-history keys against the chain ---------- *)
+Definition chain_log (c : chain) : list (addr * (felt * N)) :=
+  flat_map (fun b => log_writes (b_number b) (d_storage (b_diff b))) c.
+
+Lemma log_writes_block : forall n sto e, In e (log_writes n sto) -> snd (snd e) = n.
+Proof.
+  intros n sto e H. unfold log_writes in H. apply in_flat_map in H. destruct H as [akvs [_ H]].
+  apply in_map_iff in H. destruct H as [kv [<- _]]. reflexivity.
+Qed.
+
+Lemma chain_log_lt : forall c, wf c -> forall e, In e (chain_log c) -> snd (snd e) < N.of_nat (length c).
+Proof.
+  induction c as [|b r IH]; simpl; intros Hwf e H; [contradiction|].
+  destruct Hwf as [Hn [_ [_ [_ [_ [_ [_ [_ Hr]]]]]]]].
+  apply in_app_or in H. destruct H as [H|H].
+  - apply log_writes_block in H. lia.
+  - specialize (IH Hr e H). lia.
+Qed.
+
+Lemma filter_all : forall (A : Type) (f : A -> bool) l, (forall x, In x l -> f x = true) -> filter f l = l.
+Proof.
+  induction l as [|x l IH]; simpl; intros H; [reflexivity|].
+  rewrite (H x (or_introl eq_refl)). f_equal. apply IH. intros y Hy. apply H. right. exact Hy.
+Qed.
+
+Lemma filter_none : forall (A : Type) (f : A -> bool) l, (forall x, In x l -> f x = false) -> filter f l = [].
+Proof.
+  induction l as [|x l IH]; simpl; intros H; [reflexivity|].
+  rewrite (H x (or_introl eq_refl)). apply IH. intros y Hy. apply H. right. exact Hy.
+Qed.
+
+Lemma last_logged_app : forall l1 l2 a k u,
+  last_logged (l1 ++ l2) a k u = N.max (last_logged l1 a k u) (last_logged l2 a k u).
+Proof.
+  induction l1 as [|[a' [k' m]] l1 IH]; intros l2 a k u; simpl.
+  - rewrite N.max_0_l. reflexivity.
+  - rewrite IH.
+    destruct ((a =? a') && (k =? k') && match u with Some n => m <=? n | None => true end); [|reflexivity].
+    rewrite N.max_assoc. reflexivity.
+Qed.
+
+(* the keys one block logs: its own number if the diff writes the slot and the bound admits it, else nothing *)
+Lemma last_logged_log_writes : forall n sto a k u,
+  last_logged (log_writes n sto) a k u =
+  if existsb (fun akvs => (fst akvs =? a) && existsb (fun kv => fst kv =? k) (snd akvs)) sto
+     && match u with Some b => n <=? b | None => true end
+  then n else 0.
+Proof.
+  intros n sto a k u. unfold log_writes. induction sto as [|[a' kvs] sto IH]; simpl; [reflexivity|].
+  rewrite last_logged_app, IH. clear IH.
+  set (bound := match u with Some b => n <=? b | None => true end).
+  assert (H1 : last_logged (map (fun kv : felt * felt => (a', (fst kv, n))) kvs) a k u =
+               if (a' =? a) && existsb (fun kv => fst kv =? k) kvs && bound then n else 0).
+  { induction kvs as [|[k' v'] kvs IHk]; simpl.
+    - rewrite andb_false_r. reflexivity.
+    - rewrite IHk. fold bound. rewrite (N.eqb_sym a a'), (N.eqb_sym k k').
+      destruct (a' =? a); simpl; [|reflexivity].
+      destruct (k' =? k); simpl; [|reflexivity].
+      destruct bound; destruct (existsb (fun kv => fst kv =? k) kvs); simpl; lia. }
+  rewrite H1.
+  set (e1 := (a' =? a) && existsb (fun kv => fst kv =? k) kvs).
+  destruct e1; destruct bound;
+    match goal with |- context [existsb ?f sto] => destruct (existsb f sto) end; simpl; lia.
+Qed.
+
+Lemma last_write_le : forall c, wf c -> forall a k n, last_write c a k n <= N.of_nat (length c).
+Proof.
+  induction c as [|b r IH]; simpl; intros Hwf a k n; [lia|].
+  destruct Hwf as [Hn [_ [_ [_ [_ [_ [_ [_ Hr]]]]]]]].
+  destruct ((b_number b <=? n) && writes (b_diff b) a k); [lia|]. specialize (IH Hr a k n). lia.
+Qed.
+
+Lemma last_logged_chain_log : forall c, wf c -> forall a k n,
+  last_logged (chain_log c) a k (Some n) = last_write c a k n.
+Proof.
+  induction c as [|b r IH]; simpl; intros Hwf a k n; [reflexivity|].
+  pose proof Hwf as Hwf'. destruct Hwf as [Hn [_ [_ [_ [_ [_ [_ [_ Hr]]]]]]]].
+  rewrite last_logged_app, last_logged_log_writes, (IH Hr). fold (writes (b_diff b) a k).
+  pose proof (last_write_le r Hr a k n) as Hle.
+  rewrite (andb_comm (writes (b_diff b) a k)).
+  destruct ((b_number b <=? n) && writes (b_diff b) a k); lia.
+Qed.
+
+Lemma last_logged_unbounded : forall l a k n, (forall e, In e l -> snd (snd e) <= n) ->
+  last_logged l a k None = last_logged l a k (Some n).
+Proof.
+  induction l as [|[a' [k' m]] l IH]; simpl; intros a k n H; [reflexivity|].
+  rewrite (IH a k n) by (intros e He; apply H; right; exact He).
+  specialize (H (a', (k', m)) (or_introl eq_refl)). simpl in H.
+  destruct (m <=? n) eqn:E; [reflexivity|lia].
+Qed.
+
 (* ---------- the relation between the abstract chain and what the handlers read ---------- *)
 Record R (w : world) (d : db) : Prop := {
   R_l1 : db_l1 d = w_l1 w;
   R_height : db_height d = height (w_chain w);
   R_blocks : forall n, alookup n (db_blocks d) = block_at (w_chain w) n;
   R_hashix : forall h, alookup h (db_hashix d) = option_map b_number (block_by_hash (w_chain w) h);
-  R_txix : forall h, alookup h (db_txix d) = tx_loc (w_chain w) h }.
+  R_txix : forall h, alookup h (db_txix d) = tx_loc (w_chain w) h;
+  R_classes : forall ch, mem ch (w_orphans w) = false -> alookup ch (db_classes d) = class_decl (w_chain w) ch;
+  R_sthist : db_sthist d = chain_log (w_chain w) }.
 
 Lemma R_init : R w_init db_init.
 Proof. constructor; reflexivity. Qed.
@@ -209,25 +394,25 @@ Qed.
 Lemma height_of_wf : forall b r, wf (b :: r) -> height (b :: r) = Some (N.of_nat (length r)).
 Proof. simpl. intros b r [Hn _]. rewrite Hn. reflexivity. Qed.
 
-Lemma store_R : forall w d h txs df, wf (w_chain w) -> R w d ->
-  R (w_step w (OStore h txs df)) (db_store d h txs df).
+Lemma store_R : forall w d h hp txs df extra, wf (w_chain w) -> R w d ->
+  R (w_step w (OStore h hp txs df extra)) (db_store d h hp txs df extra).
 Proof.
-  intros w d h txs df Hwf HR.
+  intros w d h hp txs df extra Hwf HR.
   pose proof (db_head_hd w d Hwf HR) as Hhead.
   assert (Hn : match db_height d with Some m => m + 1 | None => 0 end = N.of_nat (length (w_chain w))).
   { rewrite (R_height _ _ HR). destruct (w_chain w) as [|b r] eqn:Ec; [reflexivity|].
     rewrite (height_of_wf b r Hwf). simpl length. lia. }
   assert (Hb : match db_head d with
                | Some p => mk_block (match db_height d with Some m => m + 1 | None => 0 end)
-                                    (b_hash p) (b_state p) (b_classes p) h txs df
-               | None => mk_block (match db_height d with Some m => m + 1 | None => 0 end) 0 [] [] h txs df
+                                    (b_hash p) (b_state p) (b_classes p) h hp txs df extra
+               | None => mk_block (match db_height d with Some m => m + 1 | None => 0 end) 0 [] [] h hp txs df extra
                end =
                mk_block (N.of_nat (length (w_chain w))) (head_hash (w_chain w)) (head_state (w_chain w))
-                        (head_classes (w_chain w)) h txs df).
+                        (head_classes (w_chain w)) h hp txs df extra).
   { rewrite Hhead, Hn. destruct (w_chain w); reflexivity. }
   unfold db_store. rewrite Hb, Hn. clear Hb Hhead.
   set (n := N.of_nat (length (w_chain w))).
-  set (b := mk_block n (head_hash (w_chain w)) (head_state (w_chain w)) (head_classes (w_chain w)) h txs df).
+  set (b := mk_block n (head_hash (w_chain w)) (head_state (w_chain w)) (head_classes (w_chain w)) h hp txs df extra).
   constructor; simpl.
   - apply (R_l1 _ _ HR).
   - reflexivity.
@@ -237,6 +422,9 @@ Proof.
     destruct (k =? h); [reflexivity|]. apply (R_hashix _ _ HR).
   - intros k. fold n. fold b. rewrite alookup_app, alookup_index_txs. unfold tx_loc. simpl.
     destruct (tx_index k 0 txs) as [[j u]|]; [reflexivity|]. apply (R_txix _ _ HR).
+  - intros ch Ho. rewrite alookup_add_classes, alookup_map_snd, (R_classes _ _ HR ch Ho).
+    destruct (class_decl (w_chain w) ch); reflexivity.
+  - rewrite (R_sthist _ _ HR). reflexivity.
 Qed.
 
 Lemma revert_R : forall w d, wf (w_chain w) -> R w d -> R (w_step w ORevert) (db_revert d).
@@ -274,11 +462,37 @@ Proof.
       * apply mem_true_iff in M. apply in_map_iff in M. destruct M as [t [Et Hin]].
         rewrite <- Et, (Htx t Hin). reflexivity.
       * apply (tx_index_none k (b_txs b) 0) in M. rewrite M. reflexivity.
+    + intros ch Ho. rewrite mem_app in Ho. apply orb_false_iff in Ho. destruct Ho as [Hnew Ho].
+      rewrite alookup_undeclare, (R_classes _ _ HR ch Ho), Ec. simpl. fold (delivered b).
+      destruct (class_facts r Hr) as [C1 [C2 _]].
+      destruct (class_decl r ch) as [[a df]|] eqn:Ed.
+      * specialize (C1 ch a df Ed). destruct (a =? b_number b) eqn:Ea; [apply N.eqb_eq in Ea; lia|].
+        rewrite andb_false_r. reflexivity.
+      * unfold delivered. rewrite alookup_app.
+        destruct (alookup ch (declared_defs (b_diff b))) as [def|] eqn:Edd; simpl.
+        -- apply declared_defs_hashes in Edd.
+           assert (Hm : mem ch (revert_visits (b_diff b)) = true).
+           { apply mem_true_iff. unfold revert_visits. apply in_or_app. left. exact Edd. }
+           rewrite Hm, N.eqb_refl. reflexivity.
+        -- destruct (alookup ch (b_extra b)) as [def|] eqn:Ex; simpl; [|reflexivity].
+           destruct (mem ch (deployed_classes (b_diff b))) eqn:Hdep.
+           ++ (* the class of a deployed contract: visited by the revert *)
+              assert (Hm : mem ch (revert_visits (b_diff b)) = true).
+              { apply mem_true_iff. unfold revert_visits. apply in_or_app. right. apply mem_true_iff. exact Hdep. }
+              rewrite Hm, N.eqb_refl. reflexivity.
+           ++ exfalso. apply mem_false_iff in Hnew. apply Hnew. unfold new_extra.
+              apply alookup_In in Ex. apply (in_map fst) with (x := (ch, def)). apply filter_In. split; [exact Ex|].
+              simpl. rewrite C2, Ed, Hdep. reflexivity.
+    + rewrite (R_sthist _ _ HR), Ec. simpl. rewrite filter_app.
+      rewrite filter_none, filter_all; [reflexivity| |].
+      * intros e He. pose proof (chain_log_lt r Hr e He).
+        destruct (snd (snd e) =? b_number b) eqn:E; [apply N.eqb_eq in E; lia|reflexivity].
+      * intros e He. apply log_writes_block in He. rewrite He, N.eqb_refl. reflexivity.
 Qed.
 
 Lemma step_R : forall w d o, wf (w_chain w) -> R w d -> R (w_step w o) (db_step d o).
 Proof.
-  intros w d o Hwf HR. destruct o as [h txs df| |n].
+  intros w d o Hwf HR. destruct o as [h hp txs df extra| |n].
   - apply store_R; assumption.
   - apply revert_R; assumption.
   - destruct HR. constructor; simpl; auto.
